@@ -56,7 +56,8 @@ namespace ip {
 
 	void tcp::acceptor::listen(int qs, boost::system::error_code& ec)
 	{
-		if (qs == -1) qs = 20;
+		// a negative backlog asks for the default
+		if (qs < 0) qs = 20;
 
 		if (!m_open)
 		{
